@@ -32,6 +32,7 @@ EXPLANATION = (
     "R-C09-5: all three copies of the damage formula are where(closed, 1/N, 0.5/N) and the two P_RAM copies of N agree up to "
     "the reference point. Not decided: convergence of compute_beta, closed-form lifetime vs literal accumulation, gamma_L "
     "against the guideline (no second statement of those formulas in the repository).")
+EXPLANATION += (' R-C09-2 additionally requires E to be the assessment parameter, not the material-group table value. R-C09-6: the early-failure position (searchsorted in the cumulative damage of all rows) is compared with the row count of those same rows in both lifetime properties of both calculators, which use the same test and report 0 repetitions / the failure position; P_RAM: x = (1 - D_1)/D_2 with the damage sums of pass 1 / pass 2, repetitions x + 1, cycles = repetitions times the pass-2 count.')
 ASSUMPTIONS = ["P_Z, P_D, N positive; d_1, d_2, d_RAJ negative (checked by the curve validators)",
                "statistics.NormalDist().inv_cdf is the standard normal quantile"]
 
